@@ -313,6 +313,13 @@ class ProgBase(HookMixin, ContextMixin, Process):
         super().load_instance_state(saved_state, load_context)
         world.cur().extra.setdefault('instances', []).append(self)
 
+    def save_instance_state(self, out_state, save_context):
+        # an application that keeps only its newest checkpoint: while it is being saved it purges what the store holds of it
+        store = world.cur().extra.get('purge_on_save')
+        if store is not None:
+            store.delete_process_checkpoints(self.pid)
+        super().save_instance_state(out_state, save_context)
+
     def get_status_info(self, out_status_info):
         # the documented extension point: a subclass adds its own entries to the status information
         super().get_status_info(out_status_info)
